@@ -248,6 +248,9 @@ func (w *World) doAuthorize(p int, op Op) Obs {
 		q.Set("code_challenge_method", "plain")
 	case "plain_nm":
 		q.Set("code_challenge", ver)
+	case "s256lc": // a method name in another spelling is an unknown method
+		q.Set("code_challenge", s256(ver))
+		q.Set("code_challenge_method", "s256")
 	case "plain_short": // a malformed challenge: the verifier variant "short" is byte-equal to it
 		q.Set("code_challenge", ver[:42])
 		q.Set("code_challenge_method", "plain")
@@ -412,7 +415,12 @@ func (w *World) doRedeem(p int, op Op) Obs {
 	if len(op.XAud) > 0 {
 		f.Set("audience", strings.Join(op.XAud, " "))
 	}
-	w.setAuth(r, f, op.Client, op.Auth)
+	if op.Auth == "hdr_victim" { // the presenting public client in the header, the code's owner in the body
+		r.SetBasicAuth(url.QueryEscape(op.Client), "")
+		f.Set("client_id", owner)
+	} else {
+		w.setAuth(r, f, op.Client, op.Auth)
+	}
 	finishPost(r, f)
 	o, _, _ := w.tokenCall(p, r, false)
 	return o
@@ -541,9 +549,11 @@ func (w *World) doIntrospect(p int, op Op) Obs {
 	case body["active"] == true:
 		o.Res = "active"
 		// the kind is not part of the JSON body; the responder and IntrospectToken's return value carry it
-		o.Note = "use=" + map[fosite.TokenUse]string{fosite.AccessToken: "at", fosite.RefreshToken: "rt"}[resp.GetTokenUse()]
+		use := map[fosite.TokenUse]string{fosite.AccessToken: "at", fosite.RefreshToken: "rt"}[resp.GetTokenUse()]
+		o.Note = fmt.Sprintf("use=%s|%v|%v|%s", use, body["client_id"], body["sub"], strings.Join(sortedCopy(strings.Fields(fmt.Sprint(body["scope"]))), " "))
 	default:
 		o.Res = "inactive"
+		o.Note = "bare"
 		if len(body) != 1 {
 			o.Note = "extra-members"
 		}
@@ -798,7 +808,10 @@ func (w *World) doDevDecide(p int, op Op) Obs {
 		o.Res = errName(err)
 		return o
 	}
-	if op.Dec == "accept" {
+	if op.Dec == "accept" || op.Dec == "accept_fresh" {
+		if op.Dec == "accept_fresh" {
+			req.SetSession(w.session())
+		}
 		req.SetUserCodeState(fosite.UserCodeAccepted)
 		if req.GetGrantedScopes().Has("openid") {
 			_ = w.Mem.CreateOpenIDConnectSession(ctx, dsig, req)
